@@ -31,6 +31,8 @@ type env struct {
 	Unlock  uint64
 	SizeSel int // how MaxSize was chosen relative to the encoded size (-1 absolute)
 	BigSigs bool
+	LengthField uint32 // non-zero: overwrite the transaction's Length header field
+	Fixed       bool   // scripted: MaxSize is not re-drawn
 }
 
 var burns = []uint32{2, 2, 3, 10, 10, 100, 1000, 4294967295, 4294967294, 2147483648, 65536}
@@ -114,6 +116,7 @@ func (e *env) flat(m map[string]interface{}) {
 	m["dist"] = strings.Join(it, ",")
 	m["unlocked"] = fmt.Sprint(e.Unlock)
 	m["big_sigs"] = e.BigSigs
+	m["length_field"] = fmt.Sprint(e.LengthField)
 }
 func parseEnv(m map[string]interface{}) *env {
 	e := &env{}
@@ -129,6 +132,9 @@ func parseEnv(m map[string]interface{}) *env {
 		}
 	}
 	e.BigSigs = fmt.Sprint(m["big_sigs"]) == "true"
+	if v, ok := m["length_field"]; ok {
+		fmt.Sscan(fmt.Sprint(v), &e.LengthField)
+	}
 	return e
 }
 
@@ -174,11 +180,17 @@ func run(args []string) error {
 
 	var soft, vfee []string
 	groups := []string{"soft", "cross", "hard", "fee", "locked", "params"}
-	for i := 0; i < n && replayGroup != "vfee"; i++ {
+	script := scriptedSoft()
+	if replayCase != nil {
+		script = nil
+	}
+	for i := 0; i < n+len(script) && replayGroup != "vfee"; i++ {
 		var e *env
 		var c *hrs.Case
 		if replayCase != nil {
 			e, c = replayEnv, replayCase
+		} else if i < len(script) {
+			e, c = script[i].e, script[i].c // fixed prefix, independent of seed and budget
 		} else {
 			e = genEnv(r)
 			div := uint64(1)
@@ -186,11 +198,14 @@ func run(args []string) error {
 				div = pow10(6 - int(e.Prec))
 			}
 			c = g.Case(e.Burn, div)
-			e.BigSigs = i == n/2 // one transaction that cannot be encoded (65536 signatures)
+			e.BigSigs = i == len(script)+n/2 // one transaction that cannot be encoded (65536 signatures)
 		}
 		txn, uxIn := g.Build(c, false)
 		if e.BigSigs {
 			txn.Sigs = make([]cipher.Sig, 65536)
+		}
+		if e.LengthField != 0 {
+			txn.Length = e.LengthField
 		}
 		head := hrs.Head(c.T)
 		var size uint32
@@ -199,7 +214,7 @@ func run(args []string) error {
 		if pSize {
 			return errors.New("txn.Size panicked")
 		}
-		if replayCase == nil {
+		if replayCase == nil && !e.Fixed {
 			e.pickMaxSize(r, size)
 		}
 		d := params.Distribution{InitialUnlockedCount: e.Unlock}
